@@ -791,7 +791,8 @@ class Sum(Binary):
 class AndExpression(Binary):
     # there is a special comparison with & instruction
     def __init__(self, ebpf, left, right):
-        super().__init__(ebpf, left, right, Opcode.AND, False, False)
+        super().__init__(ebpf, left, right, Opcode.AND,
+                         left.signed and right.signed, False)
 
     def __ne__(self, value):
         if isinstance(value, int) and value == 0:
@@ -1261,6 +1262,8 @@ class ktime(Expression):
 
 class prandom(Expression):
     """a function that returns the current ktime in ns"""
+    signed = False
+
     def __init__(self, ebpf):
         self.ebpf = ebpf
 
